@@ -431,36 +431,33 @@ func (ex *Exec) binop(fr *frame, st *State, ins ssa.Instruction, op token.Token,
 	return nil, false
 }
 
-// cvtFloatToInt models the amd64 code Go emits for float -> integer conversions.
+// cvtFloatToInt models the amd64 code go1.23 emits for float -> integer conversions (measured on this machine:
+// CVTTSD2SQ for 64-bit and uint32 destinations, CVTTSD2SL for int32 and all 8/16-bit destinations, the
+// "subtract 2^63 and set the top bit" sequence for uint64; out-of-range and NaN give the x86 "indefinite" value).
 func cvtFloatToInt(f *term.Term, w int, signed bool) *term.Term {
-	// signed 64-bit truncation (CVTTSD2SQ): out of range or NaN -> 0x8000000000000000
+	f = term.FpToFp(f, 64) // float32 widens exactly
+	two63 := term.FPConst64(9223372036854775808.0)
 	cvt64 := func(x *term.Term) *term.Term {
-		fw := x.Sort.W
-		lo := term.FpFromBV(term.Const(64, 1<<63), fw, true)             // -2^63
-		hi := term.FpNeg(term.FpFromBV(term.Const(64, 1<<63), fw, true)) // 2^63
-		inr := term.And(term.FpCmp(term.OFpLe, lo, x), term.FpCmp(term.OFpLt, x, hi))
+		inr := term.And(term.FpCmp(term.OFpLe, term.FpNeg(two63), x), term.FpCmp(term.OFpLt, x, two63))
 		return term.Ite(inr, term.FpToBVRaw(x, 64, true), term.Const(64, 1<<63))
 	}
-	if signed || w < 64 {
-		// narrower and signed types go through the signed 64-bit conversion and truncate
-		// (32-bit destinations use CVTTSD2SL for int32; uint32 uses the 64-bit form)
-		if signed && w == 32 {
-			fw := f.Sort.W
-			lo := term.FpFromBV(term.Const(64, uint64(0xffffffff80000000)), fw, true)
-			hi := term.FpFromBV(term.Const(64, 1<<31), fw, true)
-			inr := term.And(term.FpCmp(term.OFpLe, lo, f), term.FpCmp(term.OFpLt, f, hi))
-			// note: values in (-2^31-1, -2^31) truncate to -2^31 and are in range for the instruction
-			lo1 := term.FpFromBV(term.Const(64, uint64(0xffffffff7fffffff)), fw, true)
-			inr = term.Or(inr, term.And(term.FpCmp(term.OFpLt, lo1, f), term.FpCmp(term.OFpLt, f, lo)))
-			return term.Ite(inr, term.Extract(term.FpToBVRaw(f, 64, true), 31, 0), term.Const(32, 1<<31))
-		}
-		return term.Extract(cvt64(f), w-1, 0)
+	cvt32 := func(x *term.Term) *term.Term {
+		lo := term.FPConst64(-2147483649.0)
+		hi := term.FPConst64(2147483648.0)
+		inr := term.And(term.FpCmp(term.OFpLt, lo, x), term.FpCmp(term.OFpLt, x, hi))
+		return term.Ite(inr, term.Extract(term.FpToBVRaw(x, 64, true), 31, 0), term.Const(32, 1<<31))
 	}
-	// uint64: if f < 2^63 then cvt(f) else cvt(f - 2^63) ^ 2^63
-	fw := f.Sort.W
-	two63 := term.FpNeg(term.FpFromBV(term.Const(64, 1<<63), fw, true))
-	small := term.FpCmp(term.OFpLt, f, two63)
-	return term.Ite(small, cvt64(f), term.BXor(cvt64(term.FpArith(term.OFpSub, f, two63)), term.Const(64, 1<<63)))
+	switch {
+	case w == 64 && signed:
+		return cvt64(f)
+	case w == 64:
+		small := term.FpCmp(term.OFpLt, f, two63)
+		return term.Ite(small, cvt64(f), term.BOr(cvt64(term.FpArith(term.OFpSub, f, two63)), term.Const(64, 1<<63)))
+	case w == 32 && !signed:
+		return term.Extract(cvt64(f), 31, 0)
+	default:
+		return term.Extract(cvt32(f), w-1, 0)
+	}
 }
 
 func (ex *Exec) convert(fr *frame, st *State, x *ssa.Convert) []*State {
